@@ -31,6 +31,10 @@ type execState struct {
 	depth int // loop nesting depth
 	// facts about the run, for non-triviality classification
 	Facts map[string]int
+	// composition (C06/C07)
+	files   Files
+	inserts map[string]*tw.Stmt
+	uses    *compUse
 }
 
 func (x *execState) fail(st Status, why string) {
@@ -178,6 +182,29 @@ func (x *execState) stmt(s *tw.Stmt, sc *Scope) signal {
 				return sigBreak
 			}
 			return sigContinue
+		}
+	case tw.SReserve:
+		if x.files == nil {
+			x.fail(Unspec, "@reserve in string mode")
+			return sigNone
+		}
+		return x.reserve(s, sc)
+	case tw.SComponent:
+		if x.files == nil {
+			x.fail(Unspec, "@component in string mode")
+			return sigNone
+		}
+		return x.component(s, sc)
+	case tw.SSlot:
+		if x.files == nil {
+			x.fail(Unspec, "@slot in string mode")
+			return sigNone
+		}
+		return x.slot(s, sc)
+	case tw.SInsert, tw.SUse:
+		// handled by RenderPage; an insert renders nothing where it stands
+		if x.files == nil {
+			x.fail(Unspec, "@insert/@use in string mode")
 		}
 	default:
 		x.fail(Unspec, "statement kind "+s.Kind)
